@@ -22,7 +22,7 @@ let () =
   let hist_meta = ref "" in
   let step_no = ref 0 in
   let pre_lines = ref [] and cur_st = ref [] in
-  let cur_op = ref None and orc = ref [] and res = ref ("", "") and xs = ref [] and hs = ref [] and gen = ref "" and fault = ref false and qr = ref [] in
+  let cur_op = ref None and orc = ref [] and res = ref ("", "") and xs = ref [] and hs = ref [] and gen = ref "" and fault = ref false and qr = ref [] and indep = ref "" in
   let mismatches = ref 0 and checkfails = ref 0 in
   let report_mismatch proj m i =
     incr mismatches;
@@ -90,7 +90,17 @@ let () =
             List.iter (fun (prop, checker, detail) ->
               incr checkfails;
               Printf.printf "CHECK hist=%s step=%d prop=%s checker=%s op=[%s] detail=[%s] %s\n" !hist !step_no prop checker op_line (detail ^ " res=" ^ iclass ^ " " ^ idetail) !hist_meta) fails;
+            (* C19 independence probe of the harness: the same message on a fork without the signer's items in the
+               other auctions must get the same verdict *)
+            if !indep <> "" then begin
+              bump "indep_probes";
+              if starts_with "INDEP same=0" !indep then begin
+                incr checkfails;
+                Printf.printf "CHECK hist=%s step=%d prop=C19 checker=independence op=[%s] detail=[the verdict changes when the signer's bids and allow-list entries in the other auctions are deleted: real=%s %s] %s\n" !hist !step_no op_line iclass !indep !hist_meta
+              end
+            end;
             let tags = Checks.nontrivial ~pre ~op ~iclass ~xfers:pxs ~trace:phs ~post:post_impl ~fault:!fault in
+            let tags = if !indep <> "" then "indep_probe" :: tags else tags in
             List.iter (fun k -> bump ("nt." ^ k)) tags;
             Printf.printf "TAGS hist=%s step=%d %s\n" !hist !step_no (String.concat "," tags))
         with e ->
@@ -113,7 +123,7 @@ let () =
         end
       end
       else if starts_with "OP " l then begin
-        cur_op := Some l; orc := []; res := ("", ""); xs := []; hs := []; gen := ""; fault := false; qr := []
+        cur_op := Some l; orc := []; res := ("", ""); xs := []; hs := []; gen := ""; fault := false; qr := []; indep := ""
       end
       else if starts_with "ORC " l then orc := parse_orc l :: !orc
       else if starts_with "RES " l then begin
@@ -126,6 +136,7 @@ let () =
       else if starts_with "GEN " l then gen := String.sub l 13 1
       else if starts_with "FAULT " l then fault := true
       else if starts_with "QR " l then qr := l :: !qr
+      else if starts_with "INDEP " l then indep := l
       else if l = "END" then begin
         process ();
         if !cur_op <> None then incr step_no;
